@@ -239,6 +239,16 @@ def GI(s):
                 grid_shape(s))
 
 
+def GI_NOTABS(s):
+    """GI without the tab-stop clause: what holds inside `resize` between the assignment of the new width and the
+    final `init_tabstops(extend=True)`.  The functions resize calls in that window (reset_scroll, set_term_cursor) do
+    not look at the tab stops: they are verified under this weaker invariant, which is also all their callers owe."""
+    x, y = s.term_cursor
+    return both(s.width >= 1, s.height >= 1, 0 <= s.scrollregion_start, s.scrollregion_start <= s.scrollregion_end,
+                s.scrollregion_end <= s.height - 1, 0 <= x, x < s.width, 0 <= y, y < s.height, s.scrolling_up >= 0,
+                s.scrolling_up <= Q.seq_len(s.scrollback_buffer.seq), grid_shape(s))
+
+
 KIND = dict(term="rows", scrollback_buffer="deque", tabstops="ints", charset="obj", modes="obj")
 
 
@@ -297,8 +307,14 @@ def modelled(cls):
     values (no quantified facts are assumed; the invariant is re-derivable from the values)."""
     model, clauses, mods = cls.model, cls.__dict__.get("clauses"), cls.modifies
 
+    weaker = cls.__dict__.get("invariant_needed")
+
     def ensures(old, s, a, result):
-        yield "keeps-the-grid-invariant", GI(s)
+        if weaker is None:
+            yield "keeps-the-grid-invariant", GI(s)
+        else:
+            yield "keeps-the-part-of-the-grid-invariant-it-is-verified-under", weaker(s)
+            yield "keeps-the-grid-invariant", implies(GI(old), GI(s))
         m = model(old, a)
         for k in mods:
             yield f"{k}-is-the-model-value", same_value(k, s.fields[k], getattr(m, k))
@@ -312,7 +328,7 @@ def modelled(cls):
             s.fields[k] = materialize(k, old.fields[k], getattr(m, k))
 
     cls.ensures, cls.effects, cls.ensures_callee = ensures, effects, (lambda old, s, a, result: ())
-    cls.invariant = staticmethod(GI)
+    cls.invariant = staticmethod(GI if weaker is None else weaker)
     cls.self_shape = TERM
     cls.replayable = False
     cls.independent_posts = True
@@ -597,6 +613,7 @@ class constrain_coords:
 class set_term_cursor:
     params = dict(x=Opt(Int), y=Opt(Int))
     modifies = CURSOR_FIELDS
+    invariant_needed = staticmethod(lambda s: GI_NOTABS(s))  # (resize calls it before the tab stops are extended)
 
     def model(old, a):
         return M_set_cursor(old, old.term_cursor[0] if is_none(a.x) else val(a.x), old.term_cursor[1] if is_none(a.y) else val(a.y))
@@ -655,6 +672,9 @@ class get_utf8_len:
 class reset_scroll:
     params = dict()
     modifies = ("scrollregion_start", "scrollregion_end")
+    # called by resize before the tab stops are extended, with the margins of the old height still in place:
+    # it needs a positive height only
+    invariant_needed = staticmethod(lambda s: s.height >= 1)
 
     def model(old, a):
         return upd(old, scrollregion_start=0, scrollregion_end=old.height - 1)
